@@ -186,6 +186,17 @@ func TestAnchor(t *testing.T) {
 	}
 
 	files := map[string]string{"main.thrift": handIDL}
+	fresh := baselines{}
+	for _, st := range sch.Structs {
+		// the hand IDL has no defaults: non-optional scalars and containers start as zero
+		o := ref.NewStruct()
+		for _, f := range st.Fields {
+			if f.Req != idl.ReqOptional && f.Type.Kind != ref.Struct {
+				o.F[f.ID] = ref.Zero(f.Type)
+			}
+		}
+		fresh[st.Name] = o
+	}
 	for _, hc := range cases {
 		st := sch.ByName(hc.st)
 		top := &ref.Type{Kind: ref.Struct, Struct: st}
@@ -199,7 +210,7 @@ func TestAnchor(t *testing.T) {
 		if !ref.Equal(gotW, hc.want) {
 			t.Errorf("%s: reference filter (write) says %s, by hand %s", hc.name, ref.Show(gotW), ref.Show(hc.want))
 		}
-		wantR := filterRead(top, hc.value, root, m).(*ref.StructV)
+		wantR := filterRead(top, hc.value, root, m, fresh).(*ref.StructV)
 		if hc.read != nil && !ref.Equal(ref.Normalise(top, wantR), ref.Normalise(top, hc.read)) {
 			t.Errorf("%s: reference filter (read) says %s, by hand %s", hc.name, ref.Show(ref.Normalise(top, wantR)), ref.Show(ref.Normalise(top, hc.read)))
 		}
